@@ -6,4 +6,18 @@ func init() {
 		Rule: "one run = one seeded execution (workload tape + schedule/fault tape) of a reader issuing 1-5 timed/untimed Reader calls against a chunking, pausing, closing peer; non-trivial = at least one call had to wait (fewer bytes buffered than needed at invocation); distinct = distinct hash of the step trace (task, netpoll call site per step, clock jumps)",
 		Assume: []string{"single reader per connection (documented contract)", "simulator yields at atomics, syscalls, channel/mutex operations, spawns; weak-memory reorderings are not modelled", "AF_UNIX stream sockets only"},
 		Real:   commonReal, Stub: commonStub})
+
+	lbRule := "one run = one seeded operation sequence (1-60 ops, most <= 12) over Malloc/WriteBinary/WriteString/WriteByte/WriteDirect/MallocAck/Append/Flush and Next/Peek/Skip/Until/ReadString/ReadBinary/ReadByte/Slice/Release/readCopy/Bytes/GetBytes (lb_seq) or the poller's book/bookAck/resetTail protocol mixed with reads (lb_poller), on a LinkBuffer with seeded node capacity (16..4096), initial size, allocator mode (poison-never-reuse / LIFO reuse) and node-pool mode; sizes boundary-heavy (0,1,node-remaining+-1,1KB+-1,4KB+-1,8KB+-1, rarely 8MB+-1); non-trivial = the sequence crossed a node boundary, used a no-copy write or an appended buffer; distinct = distinct operation-name/size trace hash"
+	lbAssume := []string{"contract of nocopy.go respected: one goroutine, zero-copy results not used after Release (or after Slice, which documents a Release), Malloc'd slices filled before Flush, 0<=MallocAck(n)<=MallocLen, appended buffer never touched again and Flush before reading after Append, WriteDirect only with remain <= bytes malloc'd since the last flush and not mixed with WriteBinary/WriteString in the same unflushed span", "sequential object: no schedule dimension; the simulator owns the allocator (garbage fill, poison on free, adversarial reuse) and the history"}
+	lbStub := []string{"mcache/dirtmake allocator (valloc: garbage fill, poison, ledger)", "sync.Pool of buffer nodes (vsync.Pool with double-put ledger)"}
+	lbReal := []string{"nocopy_linkbuffer.go, nocopy.go (rewritten copy of the current /repo working tree)"}
+	for _, id := range []string{"C01", "C02", "C03"} {
+		sc := []scenarioPlan{{Name: "lb_seq", Quick: 150000, Thorough: 6000000}, {Name: "lb_poller", Quick: 50000, Thorough: 2000000}}
+		if id == "C02" {
+			sc = append(sc, scenarioPlan{Name: "lb_known", Quick: 16, Thorough: 16})
+		}
+		addPlan(&propertyPlan{ID: id,
+			Scenarios: sc,
+			Rule: lbRule, Assume: lbAssume, Real: lbReal, Stub: lbStub})
+	}
 }
